@@ -7,7 +7,7 @@
    exactly {-1, 0, 1}.  [cmp] is the model of the Compare method on parsed values, [parse] the
    model of NewVersion; both are tied to the Go code by the V-layer correspondence streams.
 
-   Fifteen ecosystems: the laws hold on the WHOLE value type (a superset of the parser's
+   Sixteen ecosystems: the laws hold on the WHOLE value type (a superset of the parser's
    image).  alpine, gentoo: they hold for all parsed values (the parser's invariant is needed).
    alpm: within each class of equal pkgrel presence (the property's sole exclusion).
    maven: NOT transitive on parsed values (C01_maven_refuted, finding F-maven-order-cycle);
@@ -23,6 +23,7 @@ From Verif.Eco.Composer Require Version VersionFacts.
 From Verif.Eco.Conan Require Version VersionFacts.
 From Verif.Eco.Cran Require Version VersionFacts.
 From Verif.Eco.Debian Require Version VersionFacts.
+From Verif.Eco.Gem Require Version VersionFacts.
 From Verif.Eco.Gentoo Require Version VersionFacts.
 From Verif.Eco.Github Require Version VersionFacts.
 From Verif.Eco.Golang Require Version VersionFacts.
@@ -58,6 +59,10 @@ Print Assumptions C01_cran.
 Theorem C01_debian : forall a b c : Debian.Version.ver, preorder_laws Debian.Version.cmp a b c.
 Proof. exact (TP_laws _ _ Debian.VersionFacts.cmp_tp). Qed.
 Print Assumptions C01_debian.
+
+Theorem C01_gem : forall a b c : Gem.Version.ver, preorder_laws Gem.Version.cmp a b c.
+Proof. exact (TP_laws _ _ Gem.VersionFacts.cmp_tp). Qed.
+Print Assumptions C01_gem.
 
 Theorem C01_github : forall a b c : Github.Version.ver, preorder_laws Github.Version.cmp a b c.
 Proof. exact (TP_laws _ _ Github.VersionFacts.cmp_tp). Qed.
@@ -151,4 +156,3 @@ Theorem C01_maven_refl_anti : forall a b : Maven.Version.ver,
 Proof. intros a b; split; [apply Maven.VersionFacts.cmp_refl|apply Maven.VersionFacts.cmp_anti]. Qed.
 Print Assumptions C01_maven_refl_anti.
 
-(* gem: added when its model is merged *)
